@@ -48,7 +48,7 @@ type Case struct {
 	Tampers  []Tamper    `json:"tampers"`
 }
 
-var tamperKinds = []string{"flip", "flip_rehash", "id", "sig", "accsig", "accid", "noacc", "prev", "stale", "ooo", "second_invalid", "author_swap", "trunc"}
+var tamperKinds = []string{"flip", "flip_rehash", "id", "sig", "accsig", "accid", "accid", "accraw", "noacc", "prev", "stale", "ooo", "second_invalid", "author_swap", "trunc"}
 
 func genCase(rt *rapid.T) Case {
 	n := rapid.IntRange(3, 6).Draw(rt, "n")
@@ -636,6 +636,27 @@ func mutate(w *aclgen.World, recs []*consensusproto.RawRecordWithId, cut int, tm
 		r.AcceptorIdentity, r.AcceptorSignature = id, sig
 		m, err := rehash(r)
 		return m, "acceptor replaced by a key that is not the network key (validly signed by it)", err
+	case "accraw":
+		// the acceptor identity in the raw (non-proto) 32-byte encoding the verifier also accepts:
+		// B even -> the genuine network key (still valid), B odd -> a rogue key signing validly
+		r := cloneRaw(raw)
+		key := w.NetKey
+		what := "network key"
+		if tm.B%2 == 1 {
+			key = accounts.Key("rogue-network", tm.A%3)
+			what = "a key that is not the network key"
+		}
+		rawId, err := key.GetPublic().Raw()
+		if err != nil {
+			return nil, "", err
+		}
+		sig, err := key.Sign(r.Payload)
+		if err != nil {
+			return nil, "", err
+		}
+		r.AcceptorIdentity, r.AcceptorSignature = rawId, sig
+		m, err := rehash(r)
+		return m, "acceptor identity in raw encoding, signed by " + what, err
 	case "noacc":
 		r := cloneRaw(raw)
 		r.AcceptorIdentity, r.AcceptorSignature = nil, nil
